@@ -310,6 +310,7 @@ PROPS["C15"] = {
     ] + [h for h in enter_set("cli_steps::key_enter", ["C15"]) if "features" not in h and "history" not in h["name"]] + [
         H("cli_steps::api_write_set_prompt", tags=["C15", "C13"], bounds="Cli::set_prompt / Cli::write(write_str|writeln_str of <= 2 bytes over {x, LF}) from ANY CliInv state", timeout=900, mem=4),
         H("cli_steps::api_build", tags=["C15"], bounds="CliBuilder::build() with each of the three prompts"),
+        H("cli_steps::api_process_error", tags=["C15", "C09"], bounds="the `error:` line for each of the six kinds of parse error (every scalar as the short option)", timeout=900, mem=4),
     ] + routing_set(["C15"]) + [
         H("cli_steps::key_enter_twin", kind="twin", cfg=["vp_h0"], mem=6),
     ],
@@ -334,6 +335,7 @@ PROPS["C09"] = {
     ] + [H("c09_derive::" + c, bounds="sub-command parsing on the concrete token list `%s` (parent variants: named with a flag, renamed tuple, optional)" % c[4:], timeout=900, mem=4)
          for c in ("p2c_base_exit", "p2c_base_flag_ping", "p2c_base_unknown", "p2c_base_missing", "p2c_base_bad_option", "p2c_base_sub_extra_arg", "p2c_tup_ping", "p2c_tup_missing", "p2c_opt_none", "p2c_opt_exit")] + [
     ] + [H("c09_derive::p4_ty_n%d" % n, tier=("both" if n in (0, 4) else "thorough"), bounds="Option<char> option, Option<bool> flag, u16 option with default_value_t: every well-formed token buffer of exactly %d bytes" % n, timeout=2400, mem=8) for n in (0, 3, 4, 5)] + [
+        H("cli_steps::api_process_error", tags=["C09", "C15"], bounds="the `error:` line for each of the six kinds of parse error: a single terminated line, flushed", timeout=900, mem=4),
         H("c09_derive::c09_name_dispatch", bounds="every command name of <= 4 bytes against P1 and the group G", timeout=1200, mem=6),
         H("c09_derive::c09_twin", kind="twin"),
     ],
